@@ -229,3 +229,13 @@ PROPS["C06"]["rule"] += (" c06 also: a DATA message of 2N..3N octets delivered i
                          " size oracle on ALL octets the backend obtained, failed reads included, plus reply codes and forbid-eof. dr also: the same"
                          " on the reader in isolation (limit 1..8, bodies N-1..3N+1, failures between the raw reads of the first N octets, backend"
                          " reading on), compared with the model ReadRetry.be_read_retry and judged by the C06 oracle of CheckDr.v.")
+TRIPW_RULE = (" tripw: trips over net.Pipe (deadlines work as on a socket) with Client.CommandTimeout = 500 ms and a caller that sleeps 1.3-1.5 s"
+              " before its first Write after Data(), between two Writes, before Close, at all three places, or nowhere (control) x bodies {small,"
+              " more than textproto's 4096-octet buffer} x verdict {accept, reject} x {SMTP, LMTP} x Close once / twice x backend read sizes."
+              " Oracle: the same c16_judge (backend octets = normalise(body), envelope, Close = verdict, second Close local error, the octets that"
+              " crossed end with dot_write(body) NOOP QUIT); a failed Write counts as a local error in front of Close's result.")
+PROPS["C16"]["kinds"] = ["tripw"] + PROPS["C16"]["kinds"]
+PROPS["C16"]["rule"] += TRIPW_RULE
+
+# the case lines of this kind are long: a smaller in-Coq sample keeps coqc's parsing time down
+PROPS["C16"]["shard"] = {"tripw": 16}
